@@ -6,6 +6,8 @@ man = json.load(open("/verif/MANIFEST.json"))
 for seed in sys.argv[1:]:
     for c in man["checks"]:
         pid = c["property_id"]
+        if os.environ.get("VERIF_PROPS") and pid not in os.environ["VERIF_PROPS"].split(","):
+            continue
         env = dict(os.environ, VERIF_SEED=seed, VERIF_NO_EVIDENCE="1")
         t = time.time()
         p = subprocess.run(c["quick_cmd"] + " --no-selftest", shell=True, cwd="/verif", capture_output=True, text=True, env=env)
